@@ -40,7 +40,7 @@ structure SideInv (cap : Nat) (cpt : Bool) (pb : Bytes) (d : Side) : Prop where
   /-- nothing lost, nothing invented: buffer ++ chunk in hand ++ pipe = everything written so far -/
   conserve : d.rd ≠ .absent → d.rd ≠ .ovf → d.acc ++ d.rd.inHand ++ d.pipe = d.written
   /-- … and written ++ still to write = the plan (until the reader gives up and bytes are dropped) -/
-  planned : d.rd ≠ .ovf → d.written ++ d.pending = pb
+  planned : d.rd ≠ .ovf → d.rd ≠ .failed → d.written ++ d.pending = pb
   /-- the buffer never exceeds the cap -/
   accCap : d.acc.length ≤ cap
   /-- a reader that stopped on the size check holds a prefix of the plan, and the plan is over the cap -/
@@ -55,6 +55,8 @@ def ErrOk (cfg : Cfg) (s : State) : Err → Prop
   | .ole x => s.flag = code x
   | .timeout => cfg.timeout ≤ s.now
   | .badUtf8 _ => False
+  | .readFailed _ => False
+  | .writeFailed => False
 
 /-- The value `join_capture(stdout)` produced. -/
 def OutRes (s : State) (ro : Option Bytes) : Prop :=
@@ -63,7 +65,7 @@ def OutRes (s : State) (ro : Option Bytes) : Prop :=
 /-- What is known once the result `r` has been produced (only facts no later step can change:
 the detached stderr reader may still run after an early `?` return). -/
 def Good (cfg : Cfg) (plan : Plan) (s : State) (r : Outcome) : Prop :=
-  allowed cfg plan r = true ∧
+  allowedIn cfg plan s r = true ∧
   (r = .error .timeout → cfg.timeout ≤ s.now) ∧
   (∀ st o e, r = .ok st o e → s.child = .reaped st .plan) ∧
   (r = .error (.badUtf8 .out) →
@@ -81,7 +83,9 @@ def PcInv (cfg : Cfg) (plan : Plan) (s : State) : Prop :=
       s.child.isReaped = false ∧ s.child.cause? ≠ some .killed
   | .kill e => s.child.isReaped = false ∧ ErrOk cfg s e
   | .reap e => s.child.isZombie = true ∧ ErrOk cfg s e
-  | .eJoinOut e | .eJoinErr e => s.child.isReaped = true ∧ ErrOk cfg s e
+  | .eJoinWr e | .eJoinOut e | .eJoinErr e => s.child.isReaped = true ∧ ErrOk cfg s e
+  | .joinWr st => SelfEnded s st
+  | .preJoinWr => False
   | .joinOut st => SelfEnded s st
   | .flagOut st => SelfEnded s st ∧ s.o.joined = true ∧ s.o.rd ≠ .absent
   | .joinErr st ro => SelfEnded s st ∧ s.o.joined = true ∧ s.flag ≠ 1 ∧ OutRes s ro
@@ -102,7 +106,8 @@ structure Inv (cfg : Cfg) (plan : Plan) (s : State) : Prop where
   causePlan : s.child.cause? = some .plan →
       s.o.pending = [] ∧ s.e.pending = [] ∧ plan.ending.status = s.child.st?
   /-- death by SIGPIPE needs a closed read end, i.e. an overflow -/
-  causeSig : s.child.cause? = some .sigpipe → s.flag ≠ 0 ∧ plan.sigpipeDies = true
+  causeSig : s.child.cause? = some .sigpipe →
+      (s.flag ≠ 0 ∨ s.o.rd = .failed ∨ s.e.rd = .failed) ∧ plan.sigpipeDies = true
   pcInv : PcInv cfg plan s
 
 /-! ## Steps of one side preserve the side invariant -/
@@ -134,15 +139,16 @@ theorem SideInv.write {cap cpt pb d d' pipeCap n} (h : SideInv cap cpt pb d)
 
 theorem SideInv.drop {cap cpt pb d d' n} (h : SideInv cap cpt pb d)
     (hs : Side.drop d n = some d') :
-    SideInv cap cpt pb d' ∧ d'.rd = d.rd ∧ d'.acc = d.acc ∧ d'.written = d.written ∧ d.rd = .ovf := by
+    SideInv cap cpt pb d' ∧ d'.rd = d.rd ∧ d'.acc = d.acc ∧ d'.written = d.written ∧ d.closed = true := by
   obtain ⟨pending, written, pipe, acc, rd⟩ := d
   obtain ⟨h1, h2, h3, h4, h5, h6, h7⟩ := h
   simp only [Side.drop] at hs
   split at hs
   · cases hs
   · cases rd <;> simp at hs
-    subst hs
-    refine ⟨⟨?_, ?_, ?_, ?_, ?_, ?_, ?_⟩, rfl, rfl, rfl, rfl⟩ <;> simp_all [Rd.inHand]
+    all_goals
+      subst hs
+      refine ⟨⟨?_, ?_, ?_, ?_, ?_, ?_, ?_⟩, rfl, rfl, rfl, rfl⟩ <;> simp_all [Rd.inHand]
 
 theorem SideInv.read {cap cpt pb d d' chunk} (h : SideInv cap cpt pb d)
     (hs : Side.read chunk d = some d') :
@@ -165,6 +171,17 @@ theorem SideInv.eof {cap cpt pb d d' alive} (h : SideInv cap cpt pb d)
   cases rd <;> simp at hs
   obtain ⟨⟨hp, ha⟩, rfl⟩ := hs
   refine ⟨⟨?_, ?_, ?_, ?_, ?_, ?_, ?_⟩, rfl, rfl, ha, rfl, rfl, rfl⟩ <;> simp_all [Rd.inHand]
+
+theorem SideInv.fail {cap cpt pb d d'} (h : SideInv cap cpt pb d)
+    (hs : Side.fail d = some d') :
+    SideInv cap cpt pb d' ∧ d.rd = .idle ∧ d'.rd = .failed ∧ d'.acc = d.acc ∧
+      d'.written = d.written ∧ d'.pending = d.pending := by
+  obtain ⟨pending, written, pipe, acc, rd⟩ := d
+  obtain ⟨h1, h2, h3, h4, h5, h6, h7⟩ := h
+  simp only [Side.fail] at hs
+  cases rd <;> simp at hs
+  subst hs
+  refine ⟨⟨?_, ?_, ?_, ?_, ?_, ?_, ?_⟩, rfl, rfl, rfl, rfl, rfl⟩ <;> simp_all [Rd.inHand]
 
 theorem SideInv.check {cap cpt pb d d' my flag flag'} (h : SideInv cap cpt pb d)
     (hs : Side.check cap my flag d = some (d', flag')) :
@@ -205,12 +222,49 @@ theorem ErrOk.mono {cfg} {s s' : State} {e : Err} (h : ErrOk cfg s e) (hnow : s.
   | ole x => simp only [ErrOk] at h ⊢; rw [hflag (by rw [h]; cases x <;> simp [code])]; exact h
   | timeout => simp only [ErrOk] at h ⊢; omega
   | badUtf8 x => exact h.elim
+  | readFailed x => exact h.elim
+  | writeFailed => exact h.elim
+
+theorem Side.finished_of_joined {d : Side} (h : d.joined = true) : d.finished = true := by
+  unfold Side.joined at h; unfold Side.finished; cases hd : d.rd <;> simp_all
+
+theorem Side.finished_iff (d : Side) :
+    d.finished = true ↔ d.rd = .absent ∨ d.rd = .eof ∨ d.rd = .ovf ∨ d.rd = .failed := by
+  unfold Side.finished; cases d.rd <;> simp
+
+/-- Fault marks are permanent, so what is allowed in a state stays allowed later. -/
+theorem allowedIn_mono {cfg plan} {s s' : State} {r : Outcome} (h : allowedIn cfg plan s r = true)
+    (hfo : s.o.rd = .failed → s'.o.rd = .failed) (hfe : s.e.rd = .failed → s'.e.rd = .failed)
+    (hfw : s.i.wr = .failed → s'.i.wr = .failed) : allowedIn cfg plan s' r = true := by
+  simp only [allowedIn, Bool.or_eq_true] at h ⊢
+  rcases h with h | h
+  · exact Or.inl h
+  · right
+    cases r with
+    | ok st o e => simp [faultAllowed] at h
+    | error e =>
+      cases e with
+      | ole x => simp [faultAllowed] at h
+      | timeout => simp [faultAllowed] at h
+      | writeFailed => simp only [faultAllowed, beq_iff_eq] at h ⊢; exact hfw h
+      | readFailed x =>
+        cases x
+        · simp only [faultAllowed, beq_iff_eq] at h ⊢; exact hfo h
+        · simp only [faultAllowed, beq_iff_eq] at h ⊢; exact hfe h
+      | badUtf8 x =>
+        cases x with
+        | err => simp [faultAllowed] at h
+        | out =>
+          simp only [faultAllowed, Bool.and_eq_true, beq_iff_eq] at h ⊢
+          exact ⟨⟨⟨hfe h.1.1.1, h.1.1.2⟩, h.1.2⟩, h.2⟩
 
 theorem Good.frame {cfg plan} {s s' : State} {r : Outcome} (h : Good cfg plan s r)
     (hc : s'.child = s.child) (hnow : s.now ≤ s'.now) (ho : s'.o.written = s.o.written)
-    (he : s'.e.written = s.e.written) : Good cfg plan s' r := by
+    (he : s'.e.written = s.e.written)
+    (hfo : s.o.rd = .failed → s'.o.rd = .failed) (hfe : s.e.rd = .failed → s'.e.rd = .failed)
+    (hfw : s.i.wr = .failed → s'.i.wr = .failed) : Good cfg plan s' r := by
   obtain ⟨h1, h2, h3, h4, h5⟩ := h
-  refine ⟨h1, fun hr => Nat.le_trans (h2 hr) hnow, ?_, ?_, ?_⟩
+  refine ⟨allowedIn_mono h1 hfo hfe hfw, fun hr => Nat.le_trans (h2 hr) hnow, ?_, ?_, ?_⟩
   · intro st o e hr; rw [hc]; exact h3 st o e hr
   · rw [ho]; exact h4
   · rw [he]; exact h5
@@ -221,9 +275,18 @@ does not go back, the flag only moves `0 → code` of a stream whose reader was 
 theorem PcInv.frame {cfg plan} {s s' : State} (h : PcInv cfg plan s)
     (hpc : s'.pc = s.pc) (hc : s'.child = s.child) (hnow : s.now ≤ s'.now)
     (hflag : s'.flag = s.flag ∨ (s.flag = 0 ∧ ((s'.flag = 1 ∧ s.o.joined = false) ∨ (s'.flag = 2 ∧ s.e.joined = false))))
-    (ho : s'.o = s.o ∨ (s.o.joined = false ∧ s'.o.written = s.o.written))
-    (he : s'.e = s.e ∨ (s.e.joined = false ∧ s'.e.written = s.e.written)) :
+    (ho : s'.o = s.o ∨ (s.o.finished = false ∧ s'.o.written = s.o.written))
+    (he : s'.e = s.e ∨ (s.e.finished = false ∧ s'.e.written = s.e.written))
+    (hw : s.i.wr = .failed → s'.i.wr = .failed) :
     PcInv cfg plan s' := by
+  have hfo : s.o.rd = .failed → s'.o.rd = .failed := by
+    intro hf; rcases ho with h | ⟨h, _⟩
+    · rw [h]; exact hf
+    · simp [Side.finished, hf] at h
+  have hfe : s.e.rd = .failed → s'.e.rd = .failed := by
+    intro hf; rcases he with h | ⟨h, _⟩
+    · rw [h]; exact hf
+    · simp [Side.finished, hf] at h
   have hf0 : s.flag ≠ 0 → s'.flag = s.flag := by
     intro h0; rcases hflag with h | ⟨h, _⟩
     · exact h
@@ -234,15 +297,15 @@ theorem PcInv.frame {cfg plan} {s s' : State} (h : PcInv cfg plan s)
   rw [hpc]
   cases hp : s.pc <;> simp only [hp] at h ⊢
   case load | tryWait | deadline | sleep => rw [hc]; exact h
-  case kill | reap | eJoinOut | eJoinErr => rw [hc]; exact ⟨h.1, h.2.mono hnow hf0⟩
-  case joinOut => simpa [SelfEnded, hc] using h
+  case kill | reap | eJoinWr | eJoinOut | eJoinErr => rw [hc]; exact ⟨h.1, h.2.mono hnow hf0⟩
+  case joinOut | joinWr => simpa [SelfEnded, hc] using h
   case flagOut =>
     obtain ⟨h1, h2, h3⟩ := h
-    have : s'.o = s.o := by rcases ho with h | ⟨h, _⟩; exact h; simp [h2] at h
+    have : s'.o = s.o := by rcases ho with h | ⟨h, _⟩; exact h; simp [Side.finished_of_joined h2] at h
     rw [this]; exact ⟨by simpa [SelfEnded, hc] using h1, h2, h3⟩
   case joinErr =>
     obtain ⟨h1, h2, h3, h4⟩ := h
-    have : s'.o = s.o := by rcases ho with h | ⟨h, _⟩; exact h; simp [h2] at h
+    have : s'.o = s.o := by rcases ho with h | ⟨h, _⟩; exact h; simp [Side.finished_of_joined h2] at h
     refine ⟨by simpa [SelfEnded, hc] using h1, by rw [this]; exact h2, ?_, by simpa [OutRes, this] using h4⟩
     rcases hflag with h | ⟨h0, ⟨h, hj⟩ | ⟨h, _⟩⟩
     · rw [h]; exact h3
@@ -250,15 +313,15 @@ theorem PcInv.frame {cfg plan} {s s' : State} (h : PcInv cfg plan s)
     · omega
   case flagErr =>
     obtain ⟨h1, h2, h3, h4, h5, h6⟩ := h
-    have h' : s'.o = s.o := by rcases ho with h | ⟨h, _⟩; exact h; simp [h2] at h
-    have h'' : s'.e = s.e := by rcases he with h | ⟨h, _⟩; exact h; simp [h5] at h
+    have h' : s'.o = s.o := by rcases ho with h | ⟨h, _⟩; exact h; simp [Side.finished_of_joined h2] at h
+    have h'' : s'.e = s.e := by rcases he with h | ⟨h, _⟩; exact h; simp [Side.finished_of_joined h5] at h
     refine ⟨by simpa [SelfEnded, hc] using h1, by rw [h']; exact h2, ?_, by simpa [OutRes, h'] using h4,
       by rw [h'']; exact h5, by rw [h'']; exact h6⟩
     rcases hflag with h | ⟨h0, ⟨h, hj⟩ | ⟨h, hj⟩⟩
     · rw [h]; exact h3
     · simp [h2] at hj
     · simp [h5] at hj
-  case done => rw [hc]; exact ⟨h.1, h.2.frame hc hnow how hew⟩
+  case done => rw [hc]; exact ⟨h.1, h.2.frame hc hnow how hew hfo hfe hw⟩
 
 
 set_option linter.unusedSimpArgs false
@@ -276,64 +339,106 @@ theorem Child.isAlive_iff (c : Child) : c.isAlive = true ↔ c = .alive := by
 
 /-! ## Reader steps -/
 
+/-- `causeSig` survives any step that leaves the child alone and keeps the flag and the fault marks. -/
+theorem Inv.causeSig' {cfg plan} {s s' : State} (h : Inv cfg plan s)
+    (hc : s'.child = s.child) (hf : s.flag ≠ 0 → s'.flag ≠ 0)
+    (ho : s.o.rd = .failed → s'.o.rd = .failed) (he : s.e.rd = .failed → s'.e.rd = .failed) :
+    s'.child.cause? = some .sigpipe →
+      (s'.flag ≠ 0 ∨ s'.o.rd = .failed ∨ s'.e.rd = .failed) ∧ plan.sigpipeDies = true := by
+  intro hcs
+  rw [hc] at hcs
+  obtain ⟨h1, h2⟩ := h.causeSig hcs
+  refine ⟨?_, h2⟩
+  rcases h1 with h1 | h1 | h1
+  · exact Or.inl (hf h1)
+  · exact Or.inr (Or.inl (ho h1))
+  · exact Or.inr (Or.inr (he h1))
+
 theorem Inv.rdRead_out {cfg plan} {s s' : State} (h : Inv cfg plan s)
     (hs : step cfg plan s (.rdRead .out) = some s') : Inv cfg plan s' := by
   simp only [step, side_out, Option.map_eq_some_iff] at hs
   obtain ⟨d', hd, rfl⟩ := hs
   obtain ⟨hi, hidle, ⟨c, hgot⟩, hacc, hw, hp⟩ := h.so.read hd
-  have hnj : s.o.joined = false := by simp [Side.joined, hidle]
-  refine ⟨hi, h.se, h.flagRange, ?_, h.flag2, ?_, ?_, ?_, h.causeSig, ?_⟩
+  have hnj : s.o.finished = false := by simp [Side.finished, hidle]
+  refine ⟨hi, h.se, h.flagRange, ?_, h.flag2, ?_, ?_, ?_, h.causeSig' rfl (fun h => h) (by intro hf; simp_all) (by intro hf; simp_all), ?_⟩
   · intro h1; have := h.flag1 h1; simp_all
   · have := h.ovfFlag; simp_all
   · have := h.eofDead; simp_all
   · have := h.causePlan; simp_all
-  · exact h.pcInv.frame rfl rfl (Nat.le_refl _) (Or.inl rfl) (Or.inr ⟨hnj, hw⟩) (Or.inl rfl)
+  · exact h.pcInv.frame rfl rfl (Nat.le_refl _) (Or.inl rfl) (Or.inr ⟨hnj, hw⟩) (Or.inl rfl) (fun h => h)
 
 theorem Inv.rdRead_err {cfg plan} {s s' : State} (h : Inv cfg plan s)
     (hs : step cfg plan s (.rdRead .err) = some s') : Inv cfg plan s' := by
   simp only [step, side_err, Option.map_eq_some_iff] at hs
   obtain ⟨d', hd, rfl⟩ := hs
   obtain ⟨hi, hidle, ⟨c, hgot⟩, hacc, hw, hp⟩ := h.se.read hd
-  have hnj : s.e.joined = false := by simp [Side.joined, hidle]
-  refine ⟨h.so, hi, h.flagRange, h.flag1, ?_, ?_, ?_, ?_, h.causeSig, ?_⟩
+  have hnj : s.e.finished = false := by simp [Side.finished, hidle]
+  refine ⟨h.so, hi, h.flagRange, h.flag1, ?_, ?_, ?_, ?_, h.causeSig' rfl (fun h => h) (by intro hf; simp_all) (by intro hf; simp_all), ?_⟩
   · intro h1; have := h.flag2 h1; simp_all
   · have := h.ovfFlag; simp_all
   · have := h.eofDead; simp_all
   · have := h.causePlan; simp_all
-  · exact h.pcInv.frame rfl rfl (Nat.le_refl _) (Or.inl rfl) (Or.inl rfl) (Or.inr ⟨hnj, hw⟩)
+  · exact h.pcInv.frame rfl rfl (Nat.le_refl _) (Or.inl rfl) (Or.inl rfl) (Or.inr ⟨hnj, hw⟩) (fun h => h)
 
 theorem Inv.rdEof_out {cfg plan} {s s' : State} (h : Inv cfg plan s)
     (hs : step cfg plan s (.rdEof .out) = some s') : Inv cfg plan s' := by
   simp only [step, side_out, Option.map_eq_some_iff] at hs
   obtain ⟨d', hd, rfl⟩ := hs
   obtain ⟨hi, hidle, heof, hal, hacc, hw, hp⟩ := h.so.eof hd
-  have hnj : s.o.joined = false := by simp [Side.joined, hidle]
-  refine ⟨hi, h.se, h.flagRange, ?_, h.flag2, ?_, ?_, ?_, h.causeSig, ?_⟩
+  have hnj : s.o.finished = false := by simp [Side.finished, hidle]
+  refine ⟨hi, h.se, h.flagRange, ?_, h.flag2, ?_, ?_, ?_, h.causeSig' rfl (fun h => h) (by intro hf; simp_all) (by intro hf; simp_all), ?_⟩
   · intro h1; have := h.flag1 h1; simp_all
   · have := h.ovfFlag; simp_all
   · have := h.eofDead; simp_all
   · have := h.causePlan; simp_all
-  · exact h.pcInv.frame rfl rfl (Nat.le_refl _) (Or.inl rfl) (Or.inr ⟨hnj, hw⟩) (Or.inl rfl)
+  · exact h.pcInv.frame rfl rfl (Nat.le_refl _) (Or.inl rfl) (Or.inr ⟨hnj, hw⟩) (Or.inl rfl) (fun h => h)
 
 theorem Inv.rdEof_err {cfg plan} {s s' : State} (h : Inv cfg plan s)
     (hs : step cfg plan s (.rdEof .err) = some s') : Inv cfg plan s' := by
   simp only [step, side_err, Option.map_eq_some_iff] at hs
   obtain ⟨d', hd, rfl⟩ := hs
   obtain ⟨hi, hidle, heof, hal, hacc, hw, hp⟩ := h.se.eof hd
-  have hnj : s.e.joined = false := by simp [Side.joined, hidle]
-  refine ⟨h.so, hi, h.flagRange, h.flag1, ?_, ?_, ?_, ?_, h.causeSig, ?_⟩
+  have hnj : s.e.finished = false := by simp [Side.finished, hidle]
+  refine ⟨h.so, hi, h.flagRange, h.flag1, ?_, ?_, ?_, ?_, h.causeSig' rfl (fun h => h) (by intro hf; simp_all) (by intro hf; simp_all), ?_⟩
   · intro h1; have := h.flag2 h1; simp_all
   · have := h.ovfFlag; simp_all
   · have := h.eofDead; simp_all
   · have := h.causePlan; simp_all
-  · exact h.pcInv.frame rfl rfl (Nat.le_refl _) (Or.inl rfl) (Or.inl rfl) (Or.inr ⟨hnj, hw⟩)
+  · exact h.pcInv.frame rfl rfl (Nat.le_refl _) (Or.inl rfl) (Or.inl rfl) (Or.inr ⟨hnj, hw⟩) (fun h => h)
+
+theorem Inv.rdFail_out {cfg plan} {s s' : State} (h : Inv cfg plan s)
+    (hs : step cfg plan s (.rdFail .out) = some s') : Inv cfg plan s' := by
+  simp only [step, side_out, Option.map_eq_some_iff] at hs
+  obtain ⟨d', hd, rfl⟩ := hs
+  obtain ⟨hi, hidle, hfail, hacc, hw, hp⟩ := h.so.fail hd
+  have hnj : s.o.finished = false := by simp [Side.finished, hidle]
+  refine ⟨hi, h.se, h.flagRange, ?_, h.flag2, ?_, ?_, ?_, h.causeSig' rfl (fun h => h) (by intro hf; simp_all) (by intro hf; simp_all), ?_⟩
+  · intro h1; have := h.flag1 h1; simp_all
+  · have := h.ovfFlag; simp_all
+  · have := h.eofDead; simp_all
+  · have := h.causePlan; simp_all
+  · exact h.pcInv.frame rfl rfl (Nat.le_refl _) (Or.inl rfl) (Or.inr ⟨hnj, hw⟩) (Or.inl rfl) (fun h => h)
+
+theorem Inv.rdFail_err {cfg plan} {s s' : State} (h : Inv cfg plan s)
+    (hs : step cfg plan s (.rdFail .err) = some s') : Inv cfg plan s' := by
+  simp only [step, side_err, Option.map_eq_some_iff] at hs
+  obtain ⟨d', hd, rfl⟩ := hs
+  obtain ⟨hi, hidle, hfail, hacc, hw, hp⟩ := h.se.fail hd
+  have hnj : s.e.finished = false := by simp [Side.finished, hidle]
+  refine ⟨h.so, hi, h.flagRange, h.flag1, ?_, ?_, ?_, ?_, h.causeSig' rfl (fun h => h) (by intro hf; simp_all) (by intro hf; simp_all), ?_⟩
+  · intro h1; have := h.flag2 h1; simp_all
+  · have := h.ovfFlag; simp_all
+  · have := h.eofDead; simp_all
+  · have := h.causePlan; simp_all
+  · exact h.pcInv.frame rfl rfl (Nat.le_refl _) (Or.inl rfl) (Or.inl rfl) (Or.inr ⟨hnj, hw⟩) (fun h => h)
 
 theorem Inv.rdCheck_out {cfg plan} {s s' : State} (h : Inv cfg plan s)
     (hs : step cfg plan s (.rdCheck .out) = some s') : Inv cfg plan s' := by
   simp only [step, side_out, Option.map_eq_some_iff] at hs
   obtain ⟨⟨d', flag'⟩, hd, rfl⟩ := hs
   obtain ⟨hi, ⟨c, hgot⟩, hw, hp, hcase⟩ := h.so.check hd
-  have hnj : s.o.joined = false := by simp [Side.joined, hgot]
+  have hnj : s.o.finished = false := by simp [Side.finished, hgot]
+  have hnj' : s.o.joined = false := by simp [Side.joined, hgot]
   have hfr := h.flagRange
   have hf1 := h.flag1
   have hf2 := h.flag2
@@ -350,25 +455,26 @@ theorem Inv.rdCheck_out {cfg plan} {s s' : State} (h : Inv cfg plan s)
     · simp_all
     · simp_all
     · simp only [setSide_out]; rw [hfl]; intro hc; have := hcs hc; split <;> simp_all [code]
-    · refine h.pcInv.frame rfl rfl (Nat.le_refl _) ?_ (Or.inr ⟨hnj, hw⟩) (Or.inl rfl)
+    · refine h.pcInv.frame rfl rfl (Nat.le_refl _) ?_ (Or.inr ⟨hnj, hw⟩) (Or.inl rfl) (fun h => h)
       simp only [setSide_out]; rw [hfl]
       by_cases h0 : s.flag = 0
-      · right; simp [h0, code, hnj]
+      · right; simp [h0, code, hnj']
       · left; simp [h0]
   · subst hfl
-    refine ⟨hi, h.se, hfr, ?_, hf2, ?_, ?_, ?_, hcs, ?_⟩
+    refine ⟨hi, h.se, hfr, ?_, hf2, ?_, ?_, ?_, h.causeSig' rfl (fun h => h) (by intro hf; simp_all) (by intro hf; simp_all), ?_⟩
     · intro h1; have := hf1 h1; simp_all
     · simp_all
     · simp_all
     · simp_all
-    · exact h.pcInv.frame rfl rfl (Nat.le_refl _) (Or.inl rfl) (Or.inr ⟨hnj, hw⟩) (Or.inl rfl)
+    · exact h.pcInv.frame rfl rfl (Nat.le_refl _) (Or.inl rfl) (Or.inr ⟨hnj, hw⟩) (Or.inl rfl) (fun h => h)
 
 theorem Inv.rdCheck_err {cfg plan} {s s' : State} (h : Inv cfg plan s)
     (hs : step cfg plan s (.rdCheck .err) = some s') : Inv cfg plan s' := by
   simp only [step, side_err, Option.map_eq_some_iff] at hs
   obtain ⟨⟨d', flag'⟩, hd, rfl⟩ := hs
   obtain ⟨hi, ⟨c, hgot⟩, hw, hp, hcase⟩ := h.se.check hd
-  have hnj : s.e.joined = false := by simp [Side.joined, hgot]
+  have hnj : s.e.finished = false := by simp [Side.finished, hgot]
+  have hnj' : s.e.joined = false := by simp [Side.joined, hgot]
   have hfr := h.flagRange
   have hf1 := h.flag1
   have hf2 := h.flag2
@@ -385,18 +491,18 @@ theorem Inv.rdCheck_err {cfg plan} {s s' : State} (h : Inv cfg plan s)
     · simp_all
     · simp_all
     · simp only [setSide_err]; rw [hfl]; intro hc; have := hcs hc; split <;> simp_all [code]
-    · refine h.pcInv.frame rfl rfl (Nat.le_refl _) ?_ (Or.inl rfl) (Or.inr ⟨hnj, hw⟩)
+    · refine h.pcInv.frame rfl rfl (Nat.le_refl _) ?_ (Or.inl rfl) (Or.inr ⟨hnj, hw⟩) (fun h => h)
       simp only [setSide_err]; rw [hfl]
       by_cases h0 : s.flag = 0
-      · right; simp [h0, code, hnj]
+      · right; simp [h0, code, hnj']
       · left; simp [h0]
   · subst hfl
-    refine ⟨h.so, hi, hfr, hf1, ?_, ?_, ?_, ?_, hcs, ?_⟩
+    refine ⟨h.so, hi, hfr, hf1, ?_, ?_, ?_, ?_, h.causeSig' rfl (fun h => h) (by intro hf; simp_all) (by intro hf; simp_all), ?_⟩
     · intro h1; have := hf2 h1; simp_all
     · simp_all
     · simp_all
     · simp_all
-    · exact h.pcInv.frame rfl rfl (Nat.le_refl _) (Or.inl rfl) (Or.inl rfl) (Or.inr ⟨hnj, hw⟩)
+    · exact h.pcInv.frame rfl rfl (Nat.le_refl _) (Or.inl rfl) (Or.inl rfl) (Or.inr ⟨hnj, hw⟩) (fun h => h)
 
 
 /-! ## Child steps -/
@@ -493,7 +599,13 @@ theorem Inv.childSigpipe {cfg plan x} {s s' : State} (h : Inv cfg plan s)
     obtain ⟨ha, hdies, hovf, hpend⟩ := hc
     rw [Child.isAlive_iff] at ha
     cases hs
-    have hflag : s.flag ≠ 0 := h.ovfFlag (by cases x <;> simp_all)
+    have hflag : s.flag ≠ 0 ∨ s.o.rd = .failed ∨ s.e.rd = .failed := by
+      have hof := h.ovfFlag
+      cases x
+      · simp only [side_out, Side.closed] at hovf
+        cases hrd : s.o.rd <;> simp_all
+      · simp only [side_err, Side.closed] at hovf
+        cases hrd : s.e.rd <;> simp_all
     refine ⟨h.so, h.se, h.flagRange, h.flag1, h.flag2, h.ovfFlag, ?_, ?_, ?_, ?_⟩
     · intro _; rfl
     · simp [Child.cause?]
@@ -506,7 +618,7 @@ theorem Inv.childEnd {cfg plan} {s s' : State} (h : Inv cfg plan s)
   simp only [step] at hs
   split at hs
   · next hc =>
-    obtain ⟨ha, hpo, hpe⟩ := hc
+    obtain ⟨ha, hpo, hpe, _⟩ := hc
     rw [Child.isAlive_iff] at ha
     split at hs
     · next st hst =>
@@ -526,7 +638,7 @@ theorem Inv.tick {cfg plan} {s s' : State} (h : Inv cfg plan s)
   · cases hs
   · cases hs
     exact ⟨h.so, h.se, h.flagRange, h.flag1, h.flag2, h.ovfFlag, h.eofDead, h.causePlan, h.causeSig,
-      h.pcInv.frame rfl rfl (Nat.le_succ _) (Or.inl rfl) (Or.inl rfl) (Or.inl rfl)⟩
+      h.pcInv.frame rfl rfl (Nat.le_succ _) (Or.inl rfl) (Or.inl rfl) (Or.inl rfl) (fun h => h)⟩
 
 
 /-! ## UTF-8 prefix scan -/
@@ -612,12 +724,16 @@ theorem SelfEnded.child {s : State} {st : Option Nat} (h : SelfEnded s st) :
 
 /-- With the flag still clear, a child that ended by itself ended as planned. -/
 theorem Inv.plan_of_flag0 {cfg plan} {s : State} {st : Option Nat} (h : Inv cfg plan s)
-    (he : SelfEnded s st) (h0 : s.flag = 0) :
+    (he : SelfEnded s st) (h0 : s.flag = 0) (hno : s.o.rd ≠ .failed) (hne : s.e.rd ≠ .failed) :
     s.child = .reaped st .plan ∧ s.o.pending = [] ∧ s.e.pending = [] ∧ plan.ending.status = some st := by
   obtain ⟨c, hc, hk⟩ := he.child
   cases c with
   | killed => exact absurd rfl hk
-  | sigpipe => exact absurd h0 (h.causeSig (by simp [hc, Child.cause?])).1
+  | sigpipe =>
+    rcases (h.causeSig (by simp [hc, Child.cause?])).1 with h1 | h1 | h1
+    · exact absurd h0 h1
+    · exact absurd h1 hno
+    · exact absurd h1 hne
   | plan =>
     have := h.causePlan (by simp [hc, Child.cause?])
     simp [hc, Child.st?] at this
@@ -628,7 +744,7 @@ theorem SideInv.eof_acc {cap cpt pb d} (h : SideInv cap cpt pb d) (he : d.rd = .
     d.acc = d.written ∧ d.written ++ d.pending = pb := by
   have h1 := h.conserve (by simp [he]) (by simp [he])
   have h2 := h.eofEmpty he
-  have h3 := h.planned (by simp [he])
+  have h3 := h.planned (by simp [he]) (by simp [he])
   simp [he, Rd.inHand, h2] at h1
   exact ⟨h1, h3⟩
 
@@ -644,15 +760,19 @@ theorem Side.joined_cases {d : Side} (hj : d.joined = true) (ha : d.rd ≠ .abse
     d.rd = .eof ∨ d.rd = .ovf := by
   rw [Side.joined_iff] at hj; simp_all
 
+theorem Side.not_failed_of_joined {d : Side} (hj : d.joined = true) : d.rd ≠ .failed := by
+  rw [Side.joined_iff] at hj; intro hf; simp [hf] at hj
+
 
 theorem Inv.main_wait {cfg plan} {s s' : State} (h : Inv cfg plan s)
     (hs : stepMain cfg s = some s')
     (hpc : s.pc = .load ∨ s.pc = .tryWait ∨ s.pc = .deadline ∨ (∃ w, s.pc = .sleep w) ∨
-      (∃ e, s.pc = .kill e) ∨ (∃ e, s.pc = .reap e) ∨ (∃ e, s.pc = .eJoinOut e)) :
+      (∃ e, s.pc = .kill e) ∨ (∃ e, s.pc = .reap e) ∨ (∃ e, s.pc = .eJoinOut e) ∨
+      (∃ e, s.pc = .eJoinWr e)) :
     Inv cfg plan s' := by
   have hp := h.pcInv
   unfold PcInv at hp
-  rcases hpc with hpc | hpc | hpc | ⟨w, hpc⟩ | ⟨e, hpc⟩ | ⟨e, hpc⟩ | ⟨e, hpc⟩ <;>
+  rcases hpc with hpc | hpc | hpc | ⟨w, hpc⟩ | ⟨e, hpc⟩ | ⟨e, hpc⟩ | ⟨e, hpc⟩ | ⟨e, hpc⟩ <;>
     simp only [stepMain, hpc] at hs hp
   · -- load
     split at hs <;> cases hs
@@ -705,12 +825,37 @@ theorem Inv.main_wait {cfg plan} {s s' : State} (h : Inv cfg plan s)
     apply h.withPc
     simp only [PcInv]
     exact ⟨hp.1, hp.2.mono (Nat.le_refl _) (fun _ => rfl)⟩
+  · -- eJoinWr
+    split at hs <;> cases hs
+    apply h.withPc
+    simp only [PcInv]
+    exact ⟨hp.1, hp.2.mono (Nat.le_refl _) (fun _ => rfl)⟩
+
+theorem allowedIn_of_allowed {cfg plan} {s : State} {r : Outcome} (h : allowed cfg plan r = true) :
+    allowedIn cfg plan s r = true := by simp [allowedIn, h]
+
+/-- `join_writer` on the success path: an `Err` of the writer thread becomes the run's error. -/
+theorem Inv.main_joinWr {cfg plan} {s s' : State} {st : Option Nat} (h : Inv cfg plan s)
+    (hs : stepMain cfg s = some s') (hpc : s.pc = .joinWr st) : Inv cfg plan s' := by
+  have hp := h.pcInv
+  unfold PcInv at hp
+  simp only [stepMain, hpc] at hs hp
+  split at hs
+  · cases hs
+  · next hwr =>
+    cases hs
+    apply h.withPc
+    simp only [PcInv]
+    refine ⟨hp.1, ?_, by simp, by simp, by simp, by simp⟩
+    simp [allowedIn, faultAllowed, hwr]
+  · cases hs; apply h.withPc; simp only [PcInv]; exact hp
+  · cases hs; apply h.withPc; simp only [PcInv]; exact hp
 
 
 theorem Good.ole {cfg plan} {s : State} {x : Strm} (h : Inv cfg plan s) (hf : s.flag = code x) :
     Good cfg plan s (.error (.ole x)) := by
   refine ⟨?_, ?_, ?_, ?_, ?_⟩
-  · simpa [allowed] using h.over_of_flag hf
+  · exact allowedIn_of_allowed (by simpa [allowed] using h.over_of_flag hf)
   all_goals simp
 
 theorem Inv.main_eJoinErr {cfg plan} {s s' : State} {e : Err} (h : Inv cfg plan s)
@@ -723,11 +868,13 @@ theorem Inv.main_eJoinErr {cfg plan} {s s' : State} {e : Err} (h : Inv cfg plan 
   simp only [PcInv]
   refine ⟨hp.1, ?_⟩
   cases e with
-  | ole x => exact (Good.ole h hp.2).frame rfl (Nat.le_refl _) rfl rfl
+  | ole x => exact (Good.ole h hp.2).frame rfl (Nat.le_refl _) rfl rfl (fun h => h) (fun h => h) (fun h => h)
   | timeout =>
     have : cfg.timeout ≤ s.now := hp.2
-    refine ⟨by simp [allowed], fun _ => this, ?_, ?_, ?_⟩ <;> simp
+    refine ⟨by simp [allowedIn, allowed], fun _ => this, ?_, ?_, ?_⟩ <;> simp
   | badUtf8 x => exact hp.2.elim
+  | readFailed x => exact hp.2.elim
+  | writeFailed => exact hp.2.elim
 
 theorem Inv.main_joinOut {cfg plan} {s s' : State} {st : Option Nat} (h : Inv cfg plan s)
     (hs : stepMain cfg s = some s') (hpc : s.pc = .joinOut st) : Inv cfg plan s' := by
@@ -747,6 +894,11 @@ theorem Inv.main_joinOut {cfg plan} {s s' : State} {st : Option Nat} (h : Inv cf
   · next hrd =>
     cases hs; apply h.withPc; simp only [PcInv]
     exact ⟨hp, by simp [Side.joined, hrd], by simp [hrd]⟩
+  · next hrd =>
+    -- the reader thread ended with `Err`: `join_capture` reports it, whatever the flag says
+    cases hs; apply h.withPc; simp only [PcInv]
+    refine ⟨hp.1, ?_, by simp, by simp, by simp, by simp⟩
+    simp [allowedIn, faultAllowed, hrd]
   · cases hs
 
 /-- What `joinOverflow … = some y` means on reachable states: `y`'s code is in the flag. -/
@@ -788,7 +940,7 @@ theorem Inv.main_flagOut {cfg plan} {s s' : State} {st : Option Nat} (h : Inv cf
     cases hs
     apply h.withPc
     simp only [PcInv]
-    exact ⟨hreaped, (Good.ole h (h.joinOverflow_some hy)).frame rfl (Nat.le_refl _) rfl rfl⟩
+    exact ⟨hreaped, (Good.ole h (h.joinOverflow_some hy)).frame rfl (Nat.le_refl _) rfl rfl (fun h => h) (fun h => h) (fun h => h)⟩
   · next hnone =>
     have hmode := joinOverflow_none hnone
     have hf1 : s.flag ≠ 1 := by
@@ -810,12 +962,26 @@ theorem Inv.main_flagOut {cfg plan} {s s' : State} {st : Option Nat} (h : Inv cf
         obtain ⟨hacc, hplanned⟩ := h.so.eof_acc heof
         have hwv : validUtf8 s.o.written = false := hacc ▸ hv
         by_cases h0 : s.flag = 0
-        · obtain ⟨_, hpo, _, _⟩ := h.plan_of_flag0 hse h0
-          have hfull : s.o.acc = plan.out := by rw [hacc, ← hplanned, hpo]; simp
-          have hlen : plan.out.length ≤ cfg.cap := by rw [← hfull]; exact h.so.accCap
-          refine ⟨?_, by simp, by simp, fun _ => Or.inl hwv, by simp⟩
-          have hno : over cfg plan .out = false := over_false_of_le (x := .out) hlen
-          simp [allowed, hcap, hno, ← hfull, hv]
+        · refine ⟨?_, by simp, by simp, fun _ => Or.inl hwv, by simp⟩
+          cases c with
+          | killed => exact absurd rfl hck
+          | sigpipe =>
+            -- no overflow, yet a closed pipe killed the child: stderr's reader had failed
+            obtain ⟨hwhy, hdies⟩ := h.causeSig (by simp [hchild, Child.cause?])
+            have hfe : s.e.rd = .failed := by
+              rcases hwhy with h1 | h1 | h1
+              · exact absurd h0 h1
+              · rw [heof] at h1; cases h1
+              · exact h1
+            have hpi : prefixInvalid cfg.cap plan.out = true :=
+              prefixInvalid_of_prefix hplanned (hacc ▸ h.so.accCap) hwv
+            simp [allowedIn, faultAllowed, hfe, hdies, hcap, hpi]
+          | plan =>
+            have hpo := (h.causePlan (by simp [hchild, Child.cause?])).1
+            have hfull : s.o.acc = plan.out := by rw [hacc, ← hplanned, hpo]; simp
+            have hlen : plan.out.length ≤ cfg.cap := by rw [← hfull]; exact h.so.accCap
+            have hno : over cfg plan .out = false := over_false_of_le (x := .out) hlen
+            simp [allowedIn, allowed, hcap, hno, ← hfull, hv]
         · -- some reader overflowed; it was not stdout's, so it was stderr's
           have h2 : s.flag = 2 := flag_eq_two h.flagRange h0 hf1
           have hfix : cfg.fixedJoin = false := by
@@ -831,13 +997,13 @@ theorem Inv.main_flagOut {cfg plan} {s s' : State} {st : Option Nat} (h : Inv cf
           | killed => exact absurd rfl hck
           | sigpipe =>
             have := (h.causeSig (by simp [hchild, Child.cause?])).2
-            simp [allowed, hcap, hfix, hoe, hpi, this]
+            simp [allowedIn, allowed, hcap, hfix, hoe, hpi, this]
           | plan =>
             have hpo := (h.causePlan (by simp [hchild, Child.cause?])).1
             have hfull : s.o.acc = plan.out := by rw [hacc, ← hplanned, hpo]; simp
             have hlen : plan.out.length ≤ cfg.cap := by rw [← hfull]; exact h.so.accCap
             have hno : over cfg plan .out = false := over_false_of_le (x := .out) hlen
-            simp [allowed, hcap, hno, ← hfull, hv]
+            simp [allowedIn, allowed, hcap, hno, ← hfull, hv]
       · -- the reader stopped on the size check but lost the CAS: D-16 (pinned `join_capture` only)
         have h0 : s.flag ≠ 0 := h.ovfFlag (Or.inl hovf)
         have h2 : s.flag = 2 := flag_eq_two h.flagRange h0 hf1
@@ -850,27 +1016,29 @@ theorem Inv.main_flagOut {cfg plan} {s s' : State} {st : Option Nat} (h : Inv cf
         have hoo : over cfg plan .out = true := by rw [over_iff]; exact ⟨hcap, hlen⟩
         have hpi : prefixInvalid cfg.cap plan.out = true := prefixInvalid_of_prefix hrest h.so.accCap hv
         refine ⟨?_, by simp, by simp, fun _ => Or.inr ⟨hfix, hoo, hoe⟩, by simp⟩
-        simp [allowed, hcap, hfix, hoe, hoo, hpi]
+        simp [allowedIn, allowed, hcap, hfix, hoe, hoo, hpi]
 
 
 /-- With the flag clear after the child ended by itself, a joined reader holds the whole plan. -/
 theorem Inv.out_complete {cfg plan} {s : State} {st : Option Nat} (h : Inv cfg plan s)
-    (hse : SelfEnded s st) (h0 : s.flag = 0) (hj : s.o.joined = true) (hna : s.o.rd ≠ .absent) :
+    (hse : SelfEnded s st) (h0 : s.flag = 0) (hj : s.o.joined = true) (hna : s.o.rd ≠ .absent)
+    (hne : s.e.rd ≠ .failed) :
     s.o.acc = plan.out ∧ s.o.written = plan.out ∧ plan.out.length ≤ cfg.cap ∧ cfg.captured .out = true := by
   rcases Side.joined_cases hj hna with heof | hovf
   · obtain ⟨hacc, hplanned⟩ := h.so.eof_acc heof
-    obtain ⟨_, hpo, _, _⟩ := h.plan_of_flag0 hse h0
+    obtain ⟨_, hpo, _, _⟩ := h.plan_of_flag0 hse h0 (Side.not_failed_of_joined hj) hne
     have hw : s.o.written = plan.out := by rw [← hplanned, hpo]; simp
     have hfull : s.o.acc = plan.out := by rw [hacc, hw]
     exact ⟨hfull, hw, by rw [← hfull]; exact h.so.accCap, h.so.captured_of hna⟩
   · exact absurd h0 (h.ovfFlag (Or.inl hovf))
 
 theorem Inv.err_complete {cfg plan} {s : State} {st : Option Nat} (h : Inv cfg plan s)
-    (hse : SelfEnded s st) (h0 : s.flag = 0) (hj : s.e.joined = true) (hna : s.e.rd ≠ .absent) :
+    (hse : SelfEnded s st) (h0 : s.flag = 0) (hj : s.e.joined = true) (hna : s.e.rd ≠ .absent)
+    (hno : s.o.rd ≠ .failed) :
     s.e.acc = plan.err ∧ s.e.written = plan.err ∧ plan.err.length ≤ cfg.cap ∧ cfg.captured .err = true := by
   rcases Side.joined_cases hj hna with heof | hovf
   · obtain ⟨hacc, hplanned⟩ := h.se.eof_acc heof
-    obtain ⟨_, _, hpe, _⟩ := h.plan_of_flag0 hse h0
+    obtain ⟨_, _, hpe, _⟩ := h.plan_of_flag0 hse h0 hno (Side.not_failed_of_joined hj)
     have hw : s.e.written = plan.err := by rw [← hplanned, hpe]; simp
     have hfull : s.e.acc = plan.err := by rw [hacc, hw]
     exact ⟨hfull, hw, by rw [← hfull]; exact h.se.accCap, h.se.captured_of hna⟩
@@ -886,13 +1054,13 @@ theorem over_false_of_not_captured {cfg : Cfg} {plan : Plan} {x : Strm} (h : cfg
 /-- The stdout half of a complete result. -/
 theorem Inv.outRes_complete {cfg plan} {s : State} {st : Option Nat} {ro : Option Bytes}
     (h : Inv cfg plan s) (hse : SelfEnded s st) (h0 : s.flag = 0) (hj : s.o.joined = true)
-    (hr : OutRes s ro) :
+    (hr : OutRes s ro) (hne : s.e.rd ≠ .failed) :
     ro = expect cfg plan .out ∧ over cfg plan .out = false ∧
       (cfg.captured .out = false ∨ validUtf8 plan.out = true) := by
   rcases hr with ⟨habs, rfl⟩ | ⟨hna, rfl, hv⟩
   · have hc := h.so.not_captured_of habs
     exact ⟨by simp [expect, hc], over_false_of_not_captured hc, Or.inl hc⟩
-  · obtain ⟨hacc, _, hlen, hc⟩ := h.out_complete hse h0 hj hna
+  · obtain ⟨hacc, _, hlen, hc⟩ := h.out_complete hse h0 hj hna hne
     exact ⟨by simp [expect, hc, hacc, Plan.bytes], over_false_of_le (x := .out) hlen, Or.inr (hacc ▸ hv)⟩
 
 theorem Inv.main_joinErr {cfg plan} {s s' : State} {st : Option Nat} {ro : Option Bytes}
@@ -910,11 +1078,13 @@ theorem Inv.main_joinErr {cfg plan} {s s' : State} {st : Option Nat} {ro : Optio
     refine ⟨hse.1, ?_⟩
     have hf2 : s.flag ≠ 2 := by intro h2; have := h.flag2 h2; simp_all
     have h0 : s.flag = 0 := by have := h.flagRange; omega
-    obtain ⟨hchild, _, _, hstatus⟩ := h.plan_of_flag0 hse h0
-    obtain ⟨hro, hoo, hvo⟩ := h.outRes_complete hse h0 hjo hres
+    have hne : s.e.rd ≠ .failed := by simp [hrd]
+    obtain ⟨hchild, _, _, hstatus⟩ := h.plan_of_flag0 hse h0 (Side.not_failed_of_joined hjo) hne
+    obtain ⟨hro, hoo, hvo⟩ := h.outRes_complete hse h0 hjo hres hne
     have hce := h.se.not_captured_of hrd
     refine ⟨?_, by simp, ?_, by simp, by simp⟩
-    · simp [allowed, hstatus, hoo, over_false_of_not_captured hce, hro, expect, hce]
+    · apply allowedIn_of_allowed
+      simp [allowed, hstatus, hoo, over_false_of_not_captured hce, hro, expect, hce]
       rcases hvo with hvo | hvo <;> simp [hvo]
     · intro st' o e hr; cases hr; exact hchild
   · next hrd =>
@@ -923,6 +1093,11 @@ theorem Inv.main_joinErr {cfg plan} {s s' : State} {st : Option Nat} {ro : Optio
   · next hrd =>
     cases hs; apply h.withPc; simp only [PcInv]
     exact ⟨hse, hjo, hf1, hres, by simp [Side.joined, hrd], by simp [hrd]⟩
+  · next hrd =>
+    -- stderr's reader thread ended with `Err`
+    cases hs; apply h.withPc; simp only [PcInv]
+    refine ⟨hse.1, ?_, by simp, by simp, by simp, by simp⟩
+    simp [allowedIn, faultAllowed, hrd]
   · cases hs
 
 theorem Inv.main_flagErr {cfg plan} {s s' : State} {st : Option Nat} {ro : Option Bytes}
@@ -937,15 +1112,17 @@ theorem Inv.main_flagErr {cfg plan} {s s' : State} {st : Option Nat} {ro : Optio
     cases hs
     apply h.withPc
     simp only [PcInv]
-    exact ⟨hse.1, (Good.ole h (h.joinOverflow_some hy)).frame rfl (Nat.le_refl _) rfl rfl⟩
+    exact ⟨hse.1, (Good.ole h (h.joinOverflow_some hy)).frame rfl (Nat.le_refl _) rfl rfl (fun h => h) (fun h => h) (fun h => h)⟩
   · next hnone =>
     have h0 : s.flag = 0 := by
       rcases joinOverflow_none hnone with ⟨_, h0⟩ | ⟨_, h2⟩
       · exact h0
       · have := h.flagRange; simp [code] at h2; omega
-    obtain ⟨hchild, _, _, hstatus⟩ := h.plan_of_flag0 hse h0
-    obtain ⟨hro, hoo, hvo⟩ := h.outRes_complete hse h0 hjo hres
-    obtain ⟨hacc, hw, hlen, hce⟩ := h.err_complete hse h0 hje hnae
+    have hno : s.o.rd ≠ .failed := Side.not_failed_of_joined hjo
+    have hne : s.e.rd ≠ .failed := Side.not_failed_of_joined hje
+    obtain ⟨hchild, _, _, hstatus⟩ := h.plan_of_flag0 hse h0 hno hne
+    obtain ⟨hro, hoo, hvo⟩ := h.outRes_complete hse h0 hjo hres hne
+    obtain ⟨hacc, hw, hlen, hce⟩ := h.err_complete hse h0 hje hnae hno
     have hoe : over cfg plan .err = false := over_false_of_le (x := .err) hlen
     split at hs <;> cases hs
     · next hv =>
@@ -953,6 +1130,7 @@ theorem Inv.main_flagErr {cfg plan} {s s' : State} {st : Option Nat} {ro : Optio
       simp only [PcInv]
       refine ⟨hse.1, ?_, by simp, ?_, by simp, by simp⟩
       · rw [hacc] at hv
+        apply allowedIn_of_allowed
         simp [allowed, hstatus, hoo, hoe, hro, expect, hce, hacc, Plan.bytes, hv]
         rcases hvo with hvo | hvo <;> simp [hvo]
       · intro st' o e hr; cases hr; exact hchild
@@ -962,6 +1140,7 @@ theorem Inv.main_flagErr {cfg plan} {s s' : State} {st : Option Nat} {ro : Optio
       simp only [PcInv]
       refine ⟨hse.1, ?_, by simp, by simp, by simp, fun _ => by rw [hw, ← hacc]; exact hv⟩
       rw [hacc] at hv
+      apply allowedIn_of_allowed
       simp [allowed, hoo, hoe, hce, hv]
       rcases hvo with hvo | hvo <;> simp [hvo]
 
@@ -977,13 +1156,59 @@ theorem Inv.main {cfg plan} {s s' : State} (h : Inv cfg plan s)
   | kill e => exact h.main_wait hs (by simp [hpc])
   | reap e => exact h.main_wait hs (by simp [hpc])
   | eJoinOut e => exact h.main_wait hs (by simp [hpc])
+  | eJoinWr e => exact h.main_wait hs (by simp [hpc])
   | eJoinErr e => exact h.main_eJoinErr hs hpc
+  | joinWr st => exact h.main_joinWr hs hpc
+  | preJoinWr => simp [stepMain, hpc] at hs
   | joinOut st => exact h.main_joinOut hs hpc
   | flagOut st => exact h.main_flagOut hs hpc
   | joinErr st ro => exact h.main_joinErr hs hpc
   | flagErr st ro => exact h.main_flagErr hs hpc
   | done r => simp [stepMain, hpc] at hs
 
+
+/-! ## Steps of the stdin pipe (writer thread, child reading or closing its stdin)
+
+The invariant does not look at the stdin side except for one permanent mark: a writer that has
+failed stays failed. -/
+
+theorem Inv.inpStep {cfg plan} {s : State} (h : Inv cfg plan s) (i' : Inp)
+    (hw : s.i.wr = .failed → i'.wr = .failed) : Inv cfg plan { s with i := i' } :=
+  ⟨h.so, h.se, h.flagRange, h.flag1, h.flag2, h.ovfFlag, h.eofDead, h.causePlan, h.causeSig,
+    h.pcInv.frame rfl rfl (Nat.le_refl _) (Or.inl rfl) (Or.inl rfl) (Or.inl rfl) hw⟩
+
+theorem Inp.write_wr {pipeCap al n} {i i' : Inp} (h : Inp.write pipeCap al i n = some i') :
+    i.wr = .busy ∧ i'.wr = .busy := by
+  unfold Inp.write at h
+  cases hw : i.wr <;> simp [hw] at h
+  obtain ⟨_, rfl⟩ := h
+  exact ⟨rfl, rfl⟩
+
+theorem Inp.finish_wr {i i' : Inp} (h : Inp.finish i = some i') : i.wr = .busy ∧ i'.wr = .fin := by
+  unfold Inp.finish at h
+  cases hw : i.wr <;> simp [hw] at h
+  obtain ⟨_, rfl⟩ := h
+  exact ⟨rfl, rfl⟩
+
+theorem Inp.epipe_wr {al} {i i' : Inp} (h : Inp.epipe al i = some i') : i.wr = .busy ∧ i'.wr = .fin := by
+  unfold Inp.epipe at h
+  cases hw : i.wr <;> simp [hw] at h
+  obtain ⟨_, rfl⟩ := h
+  exact ⟨rfl, rfl⟩
+
+theorem Inp.fail_wr {i i' : Inp} (h : Inp.fail i = some i') : i.wr = .busy ∧ i'.wr = .failed := by
+  unfold Inp.fail at h
+  cases hw : i.wr <;> simp [hw] at h
+  obtain ⟨_, rfl⟩ := h
+  exact ⟨rfl, rfl⟩
+
+theorem Inp.childRead_wr {n} {i i' : Inp} (h : Inp.childRead i n = some i') : i'.wr = i.wr := by
+  unfold Inp.childRead at h
+  split at h <;> cases h; rfl
+
+theorem Inp.childClose_wr {i i' : Inp} (h : Inp.childClose i = some i') : i'.wr = i.wr := by
+  unfold Inp.childClose at h
+  split at h <;> cases h; rfl
 
 /-! ## Initial state, every step, every execution -/
 
@@ -1007,6 +1232,37 @@ theorem Inv.step {cfg plan} {s s' : State} {l : Label} (h : Inv cfg plan s)
   | rdRead x => cases x; exact h.rdRead_out hs; exact h.rdRead_err hs
   | rdCheck x => cases x; exact h.rdCheck_out hs; exact h.rdCheck_err hs
   | rdEof x => cases x; exact h.rdEof_out hs; exact h.rdEof_err hs
+  | rdFail x => cases x; exact h.rdFail_out hs; exact h.rdFail_err hs
+  | wrWrite n =>
+    simp only [Capture.step, Option.map_eq_some_iff] at hs
+    obtain ⟨i', hi, rfl⟩ := hs
+    exact h.inpStep i' (fun hf => by rw [(Inp.write_wr hi).1] at hf; cases hf)
+  | wrEnd =>
+    simp only [Capture.step, Option.map_eq_some_iff] at hs
+    obtain ⟨i', hi, rfl⟩ := hs
+    exact h.inpStep i' (fun hf => by rw [(Inp.finish_wr hi).1] at hf; cases hf)
+  | wrEpipe =>
+    simp only [Capture.step, Option.map_eq_some_iff] at hs
+    obtain ⟨i', hi, rfl⟩ := hs
+    exact h.inpStep i' (fun hf => by rw [(Inp.epipe_wr hi).1] at hf; cases hf)
+  | wrFail =>
+    simp only [Capture.step, Option.map_eq_some_iff] at hs
+    obtain ⟨i', hi, rfl⟩ := hs
+    exact h.inpStep i' (fun _ => (Inp.fail_wr hi).2)
+  | childRead n =>
+    simp only [Capture.step] at hs
+    split at hs
+    · simp only [Option.map_eq_some_iff] at hs
+      obtain ⟨i', hi, rfl⟩ := hs
+      exact h.inpStep i' (fun hf => by rw [Inp.childRead_wr hi]; exact hf)
+    · cases hs
+  | childCloseIn =>
+    simp only [Capture.step] at hs
+    split at hs
+    · simp only [Option.map_eq_some_iff] at hs
+      obtain ⟨i', hi, rfl⟩ := hs
+      exact h.inpStep i' (fun hf => by rw [Inp.childClose_wr hi]; exact hf)
+    · cases hs
   | main => exact h.main hs
   | tick => exact h.tick hs
 
